@@ -5,6 +5,7 @@ import (
 	"crypto/sha1"
 	"fmt"
 	"io"
+	"os"
 	"strings"
 	"sync"
 	"sync/atomic"
@@ -288,6 +289,17 @@ func Run(ctx *common.Ctx) int {
 	if !quick {
 		lens = append(lens, 1<<23, 1<<24, 1<<24+1, 12500000)
 	}
+	// and where 64-bit products of counts wrap: a stuck source makes one pattern count equal to the number of blocks N,
+	// and 2^8 * N^2 passes 2^63 from N = 2^27.5 (about 1.9e8 bytes with m=8)
+	hugeNote := "skipped (less than 6 GB available)"
+	if memAvailableGB() >= 6 {
+		lens = append(lens, 200000000, 1<<28-1)
+		hugeNote = "200000000 and 2^28-1 bytes"
+		if !quick {
+			lens = append(lens, 1<<27+1, 190000000, 230000000, 1<<28+1, 300000000)
+			hugeNote += ", 2^27+1, 190000000, 230000000, 2^28+1, 300000000 bytes"
+		}
+	}
 	healthy := make([]byte, 8192)
 	hy := uint32(2463534242)
 	for i := range healthy {
@@ -350,7 +362,7 @@ func Run(ctx *common.Ctx) int {
 	}
 	_ = pairInfo
 	samples = append(samples, map[string]interface{}{"part": "rejected source beside a healthy one", "tasks": pairTasks, "schedules": pairExecs})
-	samples = append(samples, map[string]interface{}{"function": "SingleDetect", "streams": "0x00.. and 0xFF.. (every other length preceded by a healthy request of 4096.. bytes)", "lengths": "every 16..4096, 12500, 125000, and 2^k-1, 2^k, 2^k+1, 2^k(1+1/16), 2^k(1+1/3) for k=13..22 (thorough also 2^23, 2^24, 12500000)"})
+	samples = append(samples, map[string]interface{}{"function": "SingleDetect", "streams": "0x00.. and 0xFF.. (every other length preceded by a healthy request of 4096.. bytes)", "lengths": "every 16..4096, 12500, 125000, and 2^k-1, 2^k, 2^k+1, 2^k(1+1/16), 2^k(1+1/3) for k=13..22 (thorough also 2^23, 2^24, 12500000)", "lengths_where_64bit_products_wrap": hugeNote})
 	cov := common.Coverage{
 		"evaluations":         int(evals),
 		"distinct_nontrivial": len(streams) + 2,
@@ -367,4 +379,19 @@ func Run(ctx *common.Ctx) int {
 	}
 	return ctx.Finish("exploration", cov, []string{"the parallel variants run free-running on a locked source: the property quantifies inputs only (schedules are C08's subject)",
 		"period content beyond the listed kinds is not enumerated (256^p contents)"})
+}
+
+func memAvailableGB() int {
+	b, err := os.ReadFile("/proc/meminfo")
+	if err != nil {
+		return 0
+	}
+	for _, l := range strings.Split(string(b), "\n") {
+		if strings.HasPrefix(l, "MemAvailable:") {
+			var kb int
+			fmt.Sscanf(strings.TrimSpace(strings.TrimPrefix(l, "MemAvailable:")), "%d", &kb)
+			return kb / 1024 / 1024
+		}
+	}
+	return 0
 }
